@@ -3,4 +3,5 @@ INVARIANT InvAllowed
 INVARIANT InvNoSilentBackend
 INVARIANT InvUnitHonoured
 INVARIANT InvHistoryFree
+INVARIANT InvBranch
 CHECK_DEADLOCK FALSE
